@@ -712,8 +712,12 @@ func (ipcp *IPCPStateMachine) timeout() {
 		switch ipcp.state {
 		case IPCPStateClosing, IPCPStateStopping:
 			ipcp.sendTerminateRequest("Timeout")
-		case IPCPStateReqSent, IPCPStateAckRcvd, IPCPStateAckSent:
+		case IPCPStateReqSent, IPCPStateAckSent:
 			ipcp.sendConfigureRequest()
+		case IPCPStateAckRcvd:
+			// RFC 1661 TO+ in Ack-Rcvd: the retransmitted request has not been acknowledged
+			ipcp.sendConfigureRequest()
+			ipcp.setState(IPCPStateReqSent)
 		}
 	} else {
 		switch ipcp.state {
